@@ -32,7 +32,12 @@ func vLogOf(pkgPath string) []string {
 // per-instance call counter and a once-per-instance helper) are the same when p
 // is processed alone and when it is processed together with another package
 // that sorts before or after it, selected directly or through All.
-func Verif_C05_AloneVsTogether() {
+func Verif_C05_AloneVsTogether() { vAloneVsTogether(false) }
+
+// Verif_C05_AloneVsThree: the same with a package before AND a package after p.
+func Verif_C05_AloneVsThree() { vAloneVsTogether(true) }
+
+func vAloneVsTogether(three bool) {
 	pp := "example.com/m/p"
 	other := "q"
 	if verifsym.Bool() {
@@ -70,6 +75,15 @@ func Verif_C05_AloneVsTogether() {
 	w2 := vNewWorldAt("m2")
 	w2.addPkg("p", true, "h1:p", nil, []string{"p.go"}, types)
 	w2.addPkg(other, otherDirect, "h1:o", nil, []string{other + ".go"}, []vTypeSpec{{name: "T", tags: vBoth}})
+	if three {
+		third := "a"
+		if other == "a" {
+			third = "q"
+		}
+		vSet("ga", "example.com/m/"+third, "T", vActRender)
+		vSet("gb", "example.com/m/"+third, "T", vActRender)
+		w2.addPkg(third, otherDirect, "h1:t", nil, []string{third + ".go"}, []vTypeSpec{{name: "T", tags: vBoth}})
+	}
 	err2 := w2.exec(!otherDirect, true, nil, vProtoA(), &vGenB{})
 	verifsym.Assert(err2 == nil, "run with p and another package fails")
 	n2, d2 := vFilesOf(w2, "p", vSnapshot())
